@@ -10,12 +10,16 @@
     error of ParseFloat hence "not numeric").  What is NOT modelled: the sign of zero
     ("-0" is 0).
 
-    [fmt_dec]: strconv.FormatFloat(x, 'f', -1, 64) for the values the generators use: the
-    exact finite decimal expansion of a rational whose reduced denominator is 2^a*5^b.  For a
-    binary64 value with at most 15 significant decimal digits this is the shortest text that
-    round-trips, i.e. what FormatFloat prints.  Other values (more than 15 significant
-    digits, where Go prints the shortest round-tripping decimal instead of the exact one, or
-    non-terminating expansions, which are truncated) are outside the domain of [fmt_dec]. *)
+    [fmt_go]: strconv.FormatFloat(x, 'f', -1, 64): the digit string with the fewest
+    significant digits (1..17) whose text reads back as x -- among the two neighbours of x
+    with that many digits the nearer one -- laid out like fmtF ([fmt_digits]: digits, then
+    zeros or the point).  Every candidate is tested with [dec_round], which is literally
+    what [classify] computes on its text (Proofs/NewickFmt.v), so a found candidate reads back
+    by construction; when none is found (never observed for a binary64 value) the exact
+    expansion of a dyadic is printed, which reads back because the rounding leaves binary64
+    values unchanged (Proofs/NewickRound64.v).  A rational that is not a binary64 value is
+    outside the domain (some text is printed).  [fmt_dec] is the plain exact expansion
+    (kept for reference, not used by [fmt_go]). *)
 From Coq Require Import String Ascii ZArith QArith Bool Arith List.
 From GT Require Import Base.UTree Model.Newick Spec.NewickSpec.
 Import ListNotations.
